@@ -95,7 +95,7 @@ TableSigs(T, site) ==
          (IF T.sttsn # T.n THEN {TSig("Tables", site, "stts-count")} ELSE {})
     \cup (IF T.ctts /\ T.cttsn # T.n THEN {TSig("Tables", site, "ctts-count")} ELSE {})
     \cup (IF T.resolved # T.n \/ ~T.complete THEN {TSig("Tables", site, "chunk-map")} ELSE {})
-    \cup (IF T.stss /\ ( (\E i \in 1..(Len(T.stssl) - 1) : T.stssl[i+1] <= T.stssl[i])
+    \cup (IF T.stss /\ "stssl" \in DOMAIN T /\ ( (\E i \in 1..(Len(T.stssl) - 1) : T.stssl[i+1] <= T.stssl[i])
                          \/ (\E i \in 1..Len(T.stssl) : T.stssl[i] < 1 \/ T.stssl[i] > T.n) )
           THEN {TSig("Tables", site, "stss")} ELSE {})
     \cup (IF T.stsdn # 1 THEN {TSig("Tables", site, "stsd-count")} ELSE {})
